@@ -133,7 +133,7 @@ func netPart(run *core.Run) core.Coverage {
 		}
 	}
 	uniq = consnet.Interleave(uniq)
-	sum := consnet.RunCampaign(run, uniq, consnet.CampaignOpts{Focus: map[string]bool{"C16": true}, Budget: time.Duration(run.Pick(240, 600)) * time.Second})
+	sum := consnet.RunCampaign(run, uniq, consnet.CampaignOpts{Focus: map[string]bool{"C16": true}, Budget: time.Duration(run.Pick(600, 600)) * time.Second})
 	cov := sum.Coverage("every compatible subset of <= d network rules (hold/mute a message kind towards/from a node, early timeout; rounds 0-1 of heights 1-2) over each configuration (power vectors, with and without a validator-set change in block 1|2), plus a crash of each honest node before every (quick: every third) durable write of three base executions (one going through a round change, one without the harness repair of the reloaded proposer); each execution runs 4 (3) real ConsensusState replicas to the target height under the fair default schedule; oracle: the proposer each honest replica holds for its current (height, round), checked once per (replica, height, round), equals the proposer derived from the validator-set history alone",
 		map[string]interface{}{"deviation_bound": d, "configurations": len(cfgs), "crash_scenarios": len(crashes), "crash_info": crashInfo})
 	return cov
